@@ -27,6 +27,7 @@ type caseDrawer struct {
 	refRej   int
 	refBudget int
 	empty    int
+	large    int // large grammars handed out so far
 }
 
 func newDrawer() *caseDrawer { return &caseDrawer{seen: map[[32]byte]bool{}} }
@@ -36,13 +37,27 @@ type drawOpts struct {
 	bounds    int // percent with _onBounds
 	noStarF   bool
 	minSent   int // require at least this many sentences up to length 8
+	large     bool // now and then a grammar with several hundred tokens, productions and states
 }
 
 func (d *caseDrawer) draw(r *rng.R, o drawOpts) *PCase {
 	for try := 0; try < 4000; try++ {
 		var g *gram.Grammar
 		origin := ""
-		switch r.Intn(10) {
+		sel := r.Intn(10)
+		if o.large {
+			// the third grammar of a run, and one in sixty after that
+			d.mu.Lock()
+			if (d.large == 0 && d.drawn >= 2) || r.Chance(1, 200) {
+				sel = -1
+				d.large++
+			}
+			d.mu.Unlock()
+		}
+		switch sel {
+		case -1:
+			g = specgen.LargeGrammar(r)
+			origin = "large"
 		case 0, 1, 2, 3, 4:
 			g = specgen.StructuredGrammar(r)
 			origin = "structured"
@@ -144,7 +159,7 @@ func checkC01(c *Ctx) error {
 	nCLI := c.N(1, 10)
 	per := 32
 	d := newDrawer()
-	o := drawOpts{errPct: 15, bounds: 20}
+	o := drawOpts{errPct: 15, bounds: 20, large: true}
 	fastOK := true
 	var mu sync.Mutex
 	doBatch := func(bi int) {
@@ -181,6 +196,7 @@ func checkC01(c *Ctx) error {
 	doBatch(0)
 	parallel(nBatches-1, 4, func(i int) { doBatch(i + 1) })
 	c.Ev.Set("grammars_drawn", d.drawn)
+	c.Ev.Set("large_grammars_drawn", d.large)
 	c.Ev.Set("grammars_reference_says_conflict", d.refRej)
 	c.Ev.Set("grammars_language_empty", d.empty)
 	c.nontrivMin = 1000
